@@ -99,7 +99,7 @@ def _for_stores(exits, outname=None):
 def rule_stat(ctx, rid):
     P = ctx.P
     fi = P.func('emd._cycles_support.get_cycle_stat_from_samples')
-    ev = Evaluator(P, inline=_inline)
+    ev = Evaluator(P, inline=_inline, max_depth=5)
     exits = ev.run(fi)
     ctx.paths += len(exits)
     labels = S('cycle_vect')
@@ -225,7 +225,7 @@ def rule_stat(ctx, rid):
 def rule_project(ctx, rid):
     P = ctx.P
     fi = P.func('emd._cycles_support.project_cycles_to_samples')
-    ev = Evaluator(P, inline=_inline)
+    ev = Evaluator(P, inline=_inline, max_depth=5)
     exits = ev.run(fi)
     ctx.paths += len(exits)
     labels = S('cycle_vect')
